@@ -1526,7 +1526,7 @@ def listquery_oracle(t, steps):
     fails = []
     cm = ConnMap(t.cfg.name)
     prev = None
-    code = {"b": ("367", "ban"), "e": ("348", "exception"), "I": ("346", "invex")}
+    code = {"b": ("367", "368", "ban"), "e": ("348", "349", "exception"), "I": ("346", "347", "invex")}
     for s in sorted(steps, key=lambda s: s["k"]):
         ev = t.events[s["k"]]
         if ev[0] == "L" and isinstance(ev[2], str) and prev is not None and not s.get("panics"):
@@ -1535,10 +1535,12 @@ def listquery_oracle(t, steps):
             if m and actor in prev["users"]:
                 ch = prev["channels"].get(m.group(1))
                 if ch is not None and actor in ch["users"]:
-                    num, fld = code[m.group(2)]
+                    num, end, fld = code[m.group(2)]
                     mine = (s.get("out") or {}).get(str(ev[1]), [])
                     got = sorted(l.split(" ")[4] for l in mine if numeric_of(l) == num and len(l.split(" ")) > 4)
-                    if got != sorted(ch[fld]):
+                    ended = any(numeric_of(l) == end for l in mine)
+                    # (a mode string without a sign is refused by the parser: that is not a list query)
+                    if ended and got != sorted(ch[fld]):
                         fails.append(("%s by member %s lists %r, the masks in force on the channel are %r" % (ev[2], actor, got, sorted(ch[fld])), {"step": s["k"]}))
         cm.update(s)
         if s.get("dump"):
